@@ -1,4 +1,3 @@
-use std::ops::{AddAssign, MulAssign};
 
 use serde::de::{self, DeserializeSeed, MapAccess, SeqAccess, Visitor};
 use serde::{forward_to_deserialize_any, Deserialize};
@@ -75,28 +74,22 @@ impl<'de> Deserializer<'de> {
 
     fn parse_unsigned<T>(&mut self) -> Result<T>
     where
-        T: AddAssign<T> + MulAssign<T> + From<u8>,
+        T: std::str::FromStr,
     {
-        let mut int = match self.next_char()? {
-            ch @ '0'..='9' => T::from(ch as u8 - b'0'),
-            _ => {
-                return Err(DeserializeError::ExpectedInteger);
-            }
-        };
-        loop {
-            match self.input.chars().next() {
-                Some(ch @ '0'..='9') => {
-                    self.input = &self.input[1..];
-                    int *= T::from(10);
-                    int += T::from(ch as u8 - b'0');
-                }
-                _ => {
-                    return Ok(int);
-                }
-            }
+        let len = self
+            .input
+            .find(|ch: char| !ch.is_ascii_digit())
+            .unwrap_or(self.input.len());
+        if len == 0 {
+            // Consume the offending character, if any (Eof when the input is exhausted).
+            self.next_char()?;
+            return Err(DeserializeError::ExpectedInteger);
         }
+        let (digits, rest) = self.input.split_at(len);
+        self.input = rest;
+        // Fails when the number does not fit into `T`.
+        digits.parse().or(Err(DeserializeError::ExpectedInteger))
     }
-
     fn parse_string(&mut self) -> Result<&'de str> {
         if matches!(self.peek_char(), Ok('"')) {
             self.next_char()?;
